@@ -118,6 +118,12 @@ def oracle(ctx, seeds=None):
         ok, probe = impl.guarded(lambda: mk().solve(f0, cfl, stop={'maxit': nsteps + 4})[-1])
         if not ok or probe.isnan() or not np.isfinite(probe.time):
             res.count('skipped-unstable'); continue
+        if stop is None and tsave:
+            # a run that ends at its last save time only: it must get there (an unstable pairing such as the centered flux on
+            # rough Euler data shrinks its time step, turns NaN later than the probe above, and then never ends: O3)
+            ok, probe = impl.guarded(lambda: mk().solve(f0, cfl, stop={'tottime': max(tsave), 'maxit': 30 * nsteps + 100})[-1])
+            if not ok or probe.isnan() or not np.isfinite(probe.time) or not probe.time >= max(tsave):
+                res.count('skipped-unstable'); continue
         def run():
             s = mk()
             r = (s.restart if use_restart else s.solve)(f0, cfl, tsave, stop=stop)
